@@ -50,6 +50,8 @@ inductive Eff where
   | setFlag (f : FlagId) (v : Bool)
   | flagsSwitch
   | addErr
+  | consumeCustom                   -- ConsumeCustomDice: step over the pending custom-dice match
+  | commitCustom                    -- CommitCustomDice: write typeCustomDice for the pending match
   | unknown (what : String)         -- something the translator does not understand: the tie is broken
   deriving Repr, Inhabited
 
